@@ -6,6 +6,7 @@ import Rtp.Proofs.H264Obs
 import Rtp.Proofs.H264Split
 import Rtp.Proofs.H264History
 import Rtp.Proofs.H264Agg
+import Rtp.Proofs.H264ParseSound
 namespace Rtp.Props.C10
 open Rtp Rtp.Model Rtp.Model.H264 Rtp.Model.H264.Obs Rtp.Spec.Rfc6184 Rtp.Pred Rtp.Proofs.H264
 
@@ -76,6 +77,25 @@ example : ([Item.single [0x65, 1, 2], .stapA 0x78 [[0x67, 9], [0x68, 8, 7]], .fu
 example : encode [Item.single [0x65, 1, 2], .stapA 0x78 [[0x67, 9], [0x68, 8, 7]], .fuA 0x41 [[1, 2], [], [3]]] =
     [[0x65, 1, 2], [0x78, 0, 2, 0x67, 9, 0, 3, 0x68, 8, 7], [0x5C, 0x81, 1, 2], [0x5C, 0x01], [0x5C, 0x41, 3]] := by
   decide
+
+/-! ### the shape predicate is exact: `parse` accepts precisely the encodings of plans -/
+
+/-- whatever `Spec.Rfc6184.parse` accepts is, byte for byte, the RFC 6184 encoding of the plan it
+    returns (no payload sequence "parses by accident") -/
+theorem c10_parse_sound (ps : List Bytes) (plan : List Item) (h : parse ps = some plan) :
+    encode plan = ps :=
+  parse_sound ps plan h
+
+/-- … and every encoding of a legal plan parses back to that plan -/
+theorem c10_parse_complete (plan : List Item) (hw : plan.all Item.wf = true) :
+    parse (encode plan) = some plan :=
+  parse_encode plan hw
+
+example : parse [[0x65, 1], [0x7C, 0x85, 1], [0x7C, 0x45]] =
+    some [.single [0x65, 1], .fuA 0x65 [[1], []]] := by decide
+example : parse [[0x7C, 0x85, 1], [0x7C, 0x05, 2]] = none := by decide          -- unit never ends
+example : parse [[0x7C, 0x85, 1], [0x5C, 0x45, 2]] = none := by decide          -- NRI changes
+example : parse [[0x7C, 0xC5, 1]] = none := by decide                           -- S and E together
 
 /-! ### c10_shape, c10_roundtrip — payloader → depacketizer, whole histories -/
 
